@@ -273,6 +273,11 @@ pub fn case_strategy(size: Size) -> BoxedStrategy<Case> {
 /// inside a word (legal public API, `==` to the aligned input): whatever keys on the raw storage of
 /// a prefix (the IDPF caches) must not see a difference.
 pub fn prefix_head(b: &Bits, k: usize) -> usize {
+    // (re-aligning an offset bit vector costs time linear in its length at every tree level; deep
+    // candidates stay aligned so that the deep cases keep their cost)
+    if b.len > 4096 {
+        return 0;
+    }
     let mut h = 0xcbf2_9ce4_8422_2325u64 ^ (k as u64).wrapping_mul(0x9e37_79b9_7f4a_7c15) ^ b.len as u64;
     for x in b.bytes.0.iter().take(16) {
         h = (h ^ *x as u64).wrapping_mul(0x0000_0100_0000_01b3);
